@@ -15,7 +15,7 @@ BUILD_OPTS = {"block": 64, "rowset": 16}
 SETUP = [
     "create table a(k int primary key, s varchar, v int)",
     "create table b(k int, w int)",
-    "insert into a values " + ",".join(f"({i},'s{i % 5}',{i * 3 if i % 4 else 'null'})" for i in range(0, 40, 2)),
+    "insert into a values " + ",".join(f"({i},'s{i % 5}',{i * 3 if i % 4 else 'null'})" for i in range(0, 60, 2)),      # 30 rows: 3 blocks per INT column (a block count with two bits set)
     "insert into a values " + ",".join(f"({i},'t{i % 3}',{i})" for i in range(1, 30, 2)),
     "insert into b values (1,10),(2,20),(3,30)",
 ]
@@ -42,7 +42,8 @@ def corruptions(base, tier):
         data = open(f, "rb").read()
         n = len(data)
         for off in range(n):
-            bits = range(8) if tier == "thorough" else [off % 8]
+            # index files are small and their footer (block count, checksum type) is not covered by the checksum: all 8 bits
+            bits = range(8) if tier == "thorough" or rel.endswith(".idx") else [off % 8]
             for b in bits:
                 yield rel, "flip", off, b
             if data[off] != 0x00:
